@@ -141,7 +141,8 @@ fn mark(text: &str, d: &Dir, rules: &mut BTreeMap<String, usize>) -> String {
     }
     let wanted = d.qconv.iter().filter(|q| *q != "all" && *q != "allp").count();
     if wanted > used {
-        die("anchor-lost", &format!("{}: qconv lists {} `?` but only {} exist", d.item, wanted, m.tries.len()));
+        // a listed `?` no longer exists (e.g. it was spelled out as a `match`): nothing to convert there — not fatal
+        eprintln!("vp-extract: {}: qconv lists {} `?` but only {} exist", d.item, wanted, m.tries.len());
     }
     if !is_off(d, "R9") {
         m.calls.sort_by_key(|c| c.1.start);
